@@ -15,6 +15,7 @@ META = dict(
     technique="Lean 4 proof (soundness of verifyMerkleProof; the root determines txid and index over the free hash algebra) + model/implementation correspondence with real proofs",
     text="Theorems for every repository state and every proof: a verified proof is about the header the repository located (supplied header checked by CheckHeader, or the header "
          "GetHeader holds for the block hash), its index is inside the tree and its path recomputes that header's merkle root; unknown header/hash and proofs without a block fail; "
-         "two verifying proofs with the same path/duplicate markers/header have the same txid and the same index (so altering either makes it fail). Height and flag are the lookup's (C09).",
-    note=COMMON_NOTE + "Alteration of a single path element is checked on the implementation by the monitor (every position), not yet a theorem; the 64-byte-transaction ambiguity (a txid equal to an inner node) is outside the ideal-hash model.",
+         "two verifying proofs about the same header with the same path and duplicate markers have the same txid and the same index, and with the same index and "
+         "markers the same path (so altering the txid, the index or any path element makes it fail). Height and flag are the lookup's (C09).",
+    note=COMMON_NOTE + "The 64-byte-transaction ambiguity (a txid equal to an inner node) is outside the ideal-hash model.",
 )
